@@ -1333,6 +1333,47 @@ def r16_2_kind_first(ctx, rid='R16.2'):
     r.done()
 
 
+def wrapper_kind_tests(P: Program) -> Dict[str, str]:
+    """Node's no-argument kind tests, read from the source: {'is_mapping': 'MappingNode', ..} for every method of Node whose whole body
+    is `return isinstance(self.yaml_node, yaml.K)`, provided Node.__init__ does nothing to its argument but store it as self.yaml_node.
+    `Node(X).is_mapping()` then *is* `isinstance(X, yaml.MappingNode)`."""
+    c = P.cls('yatiml.helpers:Node')
+    init = c.methods.get('__init__')
+    if init is None:
+        return {}
+    body = [st for st in init.node.body if not (isinstance(st, ast.Expr) and isinstance(st.value, ast.Constant))]
+    params = [a.arg for a in init.node.args.args]
+    if not (len(params) == 2 and len(body) == 1 and isinstance(body[0], ast.Assign) and len(body[0].targets) == 1
+            and norm(body[0].targets[0]) == '%s.yaml_node' % params[0] and norm(body[0].value) == params[1]):
+        return {}
+    out = {}
+    for name, m in c.methods.items():
+        if len(m.node.args.args) != 1 or m.node.args.kwonlyargs or m.node.args.vararg or m.node.args.kwarg:
+            continue
+        b = [st for st in m.node.body if not (isinstance(st, ast.Expr) and isinstance(st.value, ast.Constant))]
+        if len(b) == 1 and isinstance(b[0], ast.Return) and b[0].value is not None:
+            ia = isinstance_atom(b[0].value)
+            if ia and ia[0] == '%s.yaml_node' % m.node.args.args[0].arg and len(ia[1]) == 1:
+                out[name] = next(iter(ia[1]))
+    return out
+
+
+def unwrap_kind_test(P: Program, g: ast.AST) -> ast.AST:
+    """`Node(X).is_mapping()` -> `isinstance(X, yaml.MappingNode)` (see wrapper_kind_tests); anything else unchanged"""
+    if isinstance(g, ast.UnaryOp) and isinstance(g.op, ast.Not):
+        inner = unwrap_kind_test(P, g.operand)
+        return g if inner is g.operand else ast.copy_location(ast.UnaryOp(ast.Not(), inner), g)
+    if isinstance(g, ast.Call) and not g.args and not g.keywords and isinstance(g.func, ast.Attribute) and isinstance(g.func.value, ast.Call) \
+            and norm(g.func.value.func) in ('Node', 'helpers.Node', 'yatiml.helpers.Node') and len(g.func.value.args) == 1 \
+            and not g.func.value.keywords:
+        k = wrapper_kind_tests(P).get(g.func.attr)
+        if k is not None:
+            new = ast.parse('isinstance(X, yaml.%s)' % k, mode='eval').body
+            new.args[0] = g.func.value.args[0]
+            return ast.fix_missing_locations(ast.copy_location(new, g))
+    return g
+
+
 def r16_3_decisions(ctx, rid='R16.3'):
     P = ctx.P
     r = ctx.rule(rid, 'each require_* helper raises RecognitionError exactly under the documented condition', floor=12)
@@ -1341,7 +1382,7 @@ def r16_3_decisions(ctx, rid='R16.3'):
         f = fn(P, UNK + name)
         rs = f.raises()
         ok = len(rs) == 1 and S.raise_class(rs[0]) == 'RecognitionError' and \
-            {f.alpha.atom(g, p) for g, p in f.guards(rs[0])} == {('isinstance(self.yaml_node, yaml.%s)' % cls_, False)}
+            {f.alpha.atom(unwrap_kind_test(P, g), p) for g, p in f.guards(rs[0])} == {('isinstance(self.yaml_node, yaml.%s)' % cls_, False)}
         r.check(ok, '%s raises RecognitionError iff the node is not a %s' % (name, cls_), f.key('decision'), f.loc(),
                 '%s does not raise exactly when the node is not a %s' % (name, cls_))
     # require_scalar
